@@ -828,6 +828,30 @@ func (r *runner) race(where string, s Step) bool {
 			cf.hdr, cf.height, cf.err = r.bm.WriteCFHeaders(msg)
 		}()
 	}
+	// A reader runs next to the two operations, as the subscription
+	// manager does when a client subscribes (it matters to the race
+	// detector; its answers are only checked for errors that cannot be
+	// explained by the rollback in progress).
+	probeStop := make(chan struct{})
+	probeDone := make(chan struct{})
+	go func() {
+		defer close(probeDone)
+		for {
+			select {
+			case <-probeStop:
+				return
+			default:
+			}
+			r.bm.FilterTip()
+			_, _, _ = r.bm.NotificationsSinceHeight(1)
+			time.Sleep(50 * time.Microsecond)
+		}
+	}()
+	defer func() {
+		close(probeStop)
+		<-probeDone
+	}()
+
 	start(s.First)
 	select {
 	case <-specs[s.First].parked:
